@@ -61,6 +61,10 @@ func oracle(c Case) vkit.Outcome {
 	out.Key = fmt.Sprint(c.Opt) + "|" + src
 	strict := egorun.Run(src, egorun.Config{Types: "strict", Optimize: c.Opt, Extensions: true, EntryPoint: "main"})
 	out.Labels = []string{fmt.Sprintf("opt=%d", c.Opt), fmt.Sprintf("ego-flavoured=%v", c.Ego)}
+	if strict.Runaway {
+		out.Inconclusive = "the strict run did not end within the harness bound"
+		return out
+	}
 	if strict.GoPanic != "" {
 		out.Fail = &vkit.Failure{Sig: "go-panic-strict", Observed: strict.GoPanic + "\n" + strict.Stack, Expected: "no Go panic"}
 		return out
@@ -94,6 +98,10 @@ func oracle(c Case) vkit.Outcome {
 	}
 	out.NonTrivial = nb >= 2
 	relaxed := egorun.Run(src, egorun.Config{Types: "relaxed", Optimize: c.Opt, Extensions: true, EntryPoint: "main"})
+	if relaxed.Runaway {
+		out.Inconclusive = "the relaxed run did not end within the harness bound"
+		return out
+	}
 	switch {
 	case relaxed.GoPanic != "":
 		out.Fail = &vkit.Failure{Sig: "go-panic-relaxed", Observed: relaxed.GoPanic + "\n" + relaxed.Stack, Expected: "no Go panic"}
